@@ -1217,6 +1217,10 @@ def extract_impl(path, header_lit, macro, args, handle, spec, stats, canary):
             if fname != it["name"]:
                 continue
             # free function: same generics/where, downstream bound replaced by the muted trait
+            # (optional ` :: requires <expr over self_>`: closure totality the body relies on)
+            sreq = None
+            if " :: requires " in muted:
+                muted, sreq = [x.strip() for x in muted.split(" :: requires ", 1)]
             sig = drop_attrs_and_docs(it["sig"])
             sig = re.sub(r"\(\s*(mut\s+)?self\s*([,)])", r"(self_: %s\2" % selfty.replace("\\", "\\\\"), sig, count=1)
             sig = re.sub(r"\(\s*&\s*mut\s+self\s*([,)])", r"(self_: &mut %s\1" % selfty.replace("\\", "\\\\"), sig, count=1)
@@ -1249,7 +1253,7 @@ def extract_impl(path, header_lit, macro, args, handle, spec, stats, canary):
             wh = ("\nwhere " + w2) if w2 else ""
             if "->" in sig and re.search(r"\bwhere\b", sig):
                 raise ExtractError("silent: fn-level where not supported")
-            silent_out.append("%s%s\n{%s}\n" % (sig, wh, b))
+            silent_out.append("%s%s%s\n{%s}\n" % (sig, wh, ("\n  requires %s," % sreq) if sreq else "", b))
             stats["silent_obligations"] += 1
     for fname in list(spec.fn) + [s[0] for s in spec.silent] + list(spec.trusted):
         if fname not in seen:
